@@ -229,6 +229,8 @@ class Tally:
 
 # ----------------------------------------------------------------------------- sub-check description
 
+E2E_MODES = {"quick": ["nojit"], "thorough": ["jit", "nojit"]}   # JIT compilation costs ~5 s per child process
+
 @dataclasses.dataclass
 class SubCheck:
     name: str
@@ -238,7 +240,7 @@ class SubCheck:
     enumerate: Optional[Callable[[str], Iterable[Any]]] = None  # tier -> iterable of cases (complete finite domain)
     budget: Dict[str, int] = dataclasses.field(default_factory=lambda: {"quick": 200, "thorough": 2000})  # cases per (mode, all shards)
     shards: Dict[str, int] = dataclasses.field(default_factory=lambda: {"quick": 2, "thorough": 16})
-    modes: List[str] = dataclasses.field(default_factory=lambda: ["jit"])
+    modes: Any = dataclasses.field(default_factory=lambda: ["jit"])      # list, or {"quick": [...], "thorough": [...]}
     exhaustive: bool = False         # enumeration covers its stated finite domain completely
     min_nontrivial_fraction: float = 0.0   # generator-degenerate floor (exit 2 below it)
     stateful: bool = False           # strategy is a RuleBasedStateMachine class factory
